@@ -92,12 +92,12 @@ new.append(ob("C17.x.select", "pkg/gi", "VerifC17Select", cases1(range(9)), case
               "the reflect.Select path for more than 8 channels / foreign channel types (reflect is not modelled). " + MODEL + ". " + ONE % "",
               ["chose1", "chose2", "badclause", "noforms", "timeout"]))
 
-new.append(ob("C17.x.select-two", "pkg/gi", "VerifC17SelectTwo", cases1(range(4)), cases1(range(4)),
+new.append(ob("C17.x.select-two", "pkg/gi", "VerifC17SelectTwo", cases1(range(3)), cases1(range(3)),
               "two (three) routines started by gi:run from the same scope wait in gi:select on one channel; the clause body blocks on an unbuffered gate "
               "channel between receiving the item and forwarding it, so every routine holds a received item while the others receive theirs: the "
               "forwarded items are a permutation of the pushed ones (symbolic 32-bit payloads, multiset equality decided by the solver) - the clause "
               "variable must belong to the evaluation of the select, not to the scope the routines share. Variants: 2 consumers, 3 consumers, a second "
-              "never-ready clause, consumers started from a dotimes. " + MODEL + ". " + ONE % "",
+              "never-ready clause (consumers started from a dotimes would write the loop variable of the scope the routines read: the recorded finding C17-run-shares-unlocked-scope, left out). " + MODEL + ". " + ONE % "",
               ["forwarded"]))
 
 q = [[c, 3, m, mode] for c in (0, 2) for m in (2, 5) for mode in (0, 1, 2)]
